@@ -339,6 +339,8 @@ def _export_columns(ctx, rule="R4-export-columns"):
         if len(made) != 1 or not isinstance(made[0], DictVal):
             ctx.unknown(rule, c, f"DataFrame construction not recognised: {made!r}"[:200], where); continue
         d = made[0].d
+        if made[0].open:
+            ctx.unknown(rule, c, "the dictionary handed to DataFrame is filled in a way the interpreter does not follow (its key set is open)", where); continue
         missing = [nm for nm in perbin if nm not in d or repr(d[nm]) == "<missing>"]
         cond = [nm for nm in perbin if nm in d and isinstance(d[nm], PV)]
         changed = [nm for nm in perbin if nm in d and not isinstance(d[nm], PV) and not (isinstance(d[nm], ArrParam) and d[nm].name == "col_" + nm)]
